@@ -17,14 +17,19 @@ package quickbuilder
 //@ forbids (*github.com/ipld/go-ipld-prime/linking.LinkSystem).Store (*github.com/ipld/go-ipld-prime/linking.LinkSystem).SetWriteStorage (*github.com/ipld/go-ipld-prime/linking.LinkSystem).SetReadStorage
 
 //@ func (*data/builder/quick.Builder).NewBytesFile
+//@ prop C11 C16
 //@ may_panic
+//@ ensures node-carries-the-size-the-builder-reported-for-its-link: int64(builtSize(result.(*data/builder/quick.lnkNode).link)) == result.(*data/builder/quick.lnkNode).size
 //@ at call data/builder.BuildUnixFSFile#1 assert built-in-the-builders-own-store: callee_ls == b.ls
 //@ ensures names-a-stored-dag: result != nil && typeis(result, "*data/builder/quick.lnkNode") && stored(result.(*data/builder/quick.lnkNode).link)
 //@ ensures monotone: forall l Ref :: old(stored(l)) ==> stored(l)
 //@ inst monotone: l: l
 
 //@ func (*data/builder/quick.Builder).NewMapDirectory
+//@ prop C11 C16
 //@ may_panic
+//@ ensures node-carries-the-size-the-builder-reported-for-its-link: result != nil ==> int64(builtSize(result.(*data/builder/quick.lnkNode).link)) == result.(*data/builder/quick.lnkNode).size
+//@ at call data/builder.BuildUnixFSDirectoryEntry#1 assert each-entry-is-named-and-sized-as-its-node-says: callee_name == name && callee_size == sz
 //@ at call data/builder.BuildUnixFSDirectory#1 assert built-in-the-builders-own-store: callee_ls == b.ls
 //@ ensures names-a-stored-dag: result != nil ==> typeis(result, "*data/builder/quick.lnkNode") && stored(result.(*data/builder/quick.lnkNode).link)
 //@ ensures monotone: forall l Ref :: old(stored(l)) ==> stored(l)
